@@ -2,7 +2,7 @@
 # usage: mutant.sh <patch-file> <PROP> [extra gvc args]
 # Applies the patch to a scratch copy of /repo (outside /repo and /verif), runs the check there, removes the copy.
 # Exit 0 if the check reported a violation (mutant caught), 1 if it was missed.
-patch=$1; prop=$2; shift 2
+patch=$(readlink -f $1); prop=$2; shift 2
 d=$(mktemp -d /tmp/gvc-mut-XXXXXX)
 cp -r /repo $d/repo
 mkdir -p $d/verif
